@@ -1,5 +1,11 @@
 package main
 
+import (
+	"fmt"
+
+	"github.com/arm-doe/sts"
+)
+
 // noRequestFailed: no request of the sender failed in this run (scheduler
 // delays alone can add up to a request time-out, after which retransmission
 // is legitimate).
@@ -9,9 +15,24 @@ func (s *Sim) noRequestFailed() bool {
 			return false
 		}
 	}
+	// a polling give-up (the receiver had not validated the file yet when the
+	// configured number of attempts was used up) makes the sender send again
+	notFound := map[string]int{}
+	attempts := s.sc.Send.PollAttempts
+	if attempts < 1 {
+		attempts = 1
+	}
 	for _, p := range s.ob.polls {
 		if p.Err != "" {
 			return false
+		}
+		for name, a := range p.Answer {
+			if a == sts.ConfirmNone {
+				notFound[fmt.Sprintf("%d/%s", p.Inc, name)]++
+				if notFound[fmt.Sprintf("%d/%s", p.Inc, name)] >= attempts {
+					return false
+				}
+			}
 		}
 	}
 	for _, r := range s.ob.txrecs {
